@@ -175,12 +175,58 @@ fn single_edit(seed: u64, idx: u64, rep: &mut Report) {
     rep.count("single_edit_cases", 1);
 }
 
+/// The single-edit bound on LARGE files (4-9 MiB of distinct blocks, a few bytes inserted, deleted or replaced near
+/// the front or somewhere inside): an engine that splits the work into segments must not lose a block per segment.
+fn single_edit_large(seed: u64, idx: u64, rep: &mut Report) {
+    let mut rng = Rng::derive(seed, 1620, idx);
+    rep.evaluations += 1;
+    let bs = *rng.pick(&[512usize, 2048, 4096, 65536]);
+    let total = rng.range(4 * 1024 * 1024 + 1, 9 * 1024 * 1024);
+    let nb = total / bs;
+    let mut basis = rng.bytes(nb * bs);
+    for i in 0..nb {
+        basis[i * bs..i * bs + 4].copy_from_slice(&(i as u32).to_le_bytes());
+    }
+    let k = *rng.pick(&[1usize, 1, 7, 137, 700, 4099]);
+    let at = match rng.below(3) {
+        0 => 0,
+        1 => rng.range(1, bs - 1),
+        _ => rng.range(0, basis.len() - k - 1),
+    };
+    let op = rng.below(3);
+    let mut source = basis.clone();
+    match op {
+        0 => {
+            let ins = rng.bytes(k);
+            source.splice(at..at, ins);
+        }
+        1 => {
+            source.drain(at..at + k);
+        }
+        _ => {
+            for b in &mut source[at..at + k] {
+                *b = b.wrapping_add(1 + (rng.byte() % 200));
+            }
+        }
+    }
+    let ctx = json!({"seed": seed, "case": idx, "family": "single-edit-large", "bs": bs, "bytes": basis.len(), "op": (["insert", "delete", "replace"][op as usize]), "k": k, "at": at});
+    let bound = k as u64 + 2 * bs as u64;
+    for (eng, l) in lit_of(&basis, &source, bs, &ctx, rep) {
+        if l > bound {
+            rep.violation(&format!("C16|{eng}|single-edit-literal>k+2bs|large-file"), json!({"ctx": ctx, "literal": l, "bound": bound}));
+        }
+    }
+    rep.distinct.insert(format!("edit-large|bs{bs}|op{op}"));
+    rep.count("single_edit_cases_over_4MiB", 1);
+}
+
 pub fn run(seed: u64, thorough: bool, cases: Option<u64>) -> Report {
     let n = cases.unwrap_or(if thorough { 30_000 } else { 1200 });
     let mut rep = par_cases(n, |i, r| general(seed, i, r));
     if !crate::util::tiny() {
         rep.merge(par_cases(n / 4, |i, r| identical(seed, i, r)));
         rep.merge(par_cases(n / 3, |i, r| single_edit(seed, i, r)));
+        rep.merge(par_cases(if thorough { 60 } else { 6 }, |i, r| single_edit_large(seed, i, r)));
     }
     rep
 }
